@@ -8,6 +8,8 @@ from manifest_meta import META, NOT_APPLICABLE, HOOK_COMMITS, NOTES
 
 checks = []
 for pid in sorted(CHECKS):
+    if pid not in META:
+        continue
     m = META[pid]
     checks.append(dict(
         property_id=pid,
@@ -28,16 +30,16 @@ man = dict(
                baseline_off_cmd='./scripts/baseline.sh',
                source_commits=HOOK_COMMITS, add_only=True),
     engines=[
-        dict(name='seqx-inproc', path='engine/seqx.h', serves_properties=[p for p in sorted(CHECKS) if META[p]['engine'] == 'seqx-inproc'],
+        dict(name='seqx-inproc', path='engine/seqx.h', serves_properties=[p for p in sorted(CHECKS) if p in META and META[p]['engine'] == 'seqx-inproc'],
              kind_free_text='explicit-state BFS over operation histories replayed on fresh real objects, in-process, reference monitor on every step'),
-        dict(name='seqx-world', path='engine/world', serves_properties=[p for p in sorted(CHECKS) if META[p]['engine'] == 'seqx-world'],
+        dict(name='seqx-world', path='engine/world', serves_properties=[p for p in sorted(CHECKS) if p in META and META[p]['engine'] == 'seqx-world'],
              kind_free_text='explicit-state BFS over API/callback/environment histories of the real core library, fork per execution, link-time shim (virtual clock, fd ledger), reference monitor'),
-        dict(name='schedx', path='engine/schedx', serves_properties=[p for p in sorted(CHECKS) if META[p]['engine'] == 'schedx'],
+        dict(name='schedx', path='engine/schedx', serves_properties=[p for p in sorted(CHECKS) if p in META and META[p]['engine'] == 'schedx'],
              kind_free_text='serialising scheduler over wrapped pthread/syscall points, preemption-bounded exhaustive schedule enumeration of real threads, ASan/TSan per schedule'),
     ],
     checks=checks,
     notes=NOTES,
-    not_applicable=[dict(property_id=p, reason=r) for p, r in sorted(NOT_APPLICABLE.items()) if p not in CHECKS],
+    not_applicable=[dict(property_id=p, reason=r) for p, r in sorted(NOT_APPLICABLE.items()) if not (p in CHECKS and p in META)],
 )
 json.dump(man, open(os.path.join(ROOT, 'MANIFEST.json'), 'w'), indent=1)
 print('MANIFEST.json: %d checks, %d not_applicable' % (len(checks), len(man['not_applicable'])))
